@@ -16,10 +16,15 @@ class EqValue(GenericValue):
     _changes: List[Change]
 
     def __eq__(self, other):
+        if compare_only():
+            # the result is only used to align two sequences,
+            # it should not depend on the flags or be counted as a failed comparison
+            return self._old_value == other
+
         if self._old_value is undefined:
             state().missing_values += 1
 
-        if not compare_only() and self._new_value is undefined:
+        if self._new_value is undefined:
             self._changes = []
             adapter = Adapter(self._context).get_adapter(self._old_value, other)
             it = iter(adapter.assign(self._old_value, self._ast_node, clone(other)))
